@@ -111,8 +111,28 @@ def _is_slash(name):
     return b"/" in name or name in (b".", b"..")
 
 
+def _client_ids(case_line):
+    """Decoded message-id strings of the client operations that take an id (get / seen / src / del / msrc / mdel)."""
+    ins = case_line.split(" => ")[0].split(" ")[1:]
+    res = []
+    for i, o in enumerate(_ops(ins)):
+        p = o.split(":")
+        if p[0] == "c" and p[1] in ("get", "seen", "src", "del", "msrc", "mdel"):
+            try:
+                res.append((i, b"" if p[3] == "-" else bytes.fromhex(p[3])))
+            except ValueError:
+                pass
+    return res
+
+
+def _is_dotseg(ident):
+    # an id with a '.' / '..' path segment: the client puts it into the path as it is, JoinPath cleans it away
+    return any(seg in (b".", b"..") for seg in ident.split(b"/"))
+
+
 def match_known(case_line, reason):
-    # fail:<class>@<index of the op>: known only when THAT operation addresses a name with '/' or '.'/'..'
+    # fail:<class>@<index of the op>: known only when THAT operation addresses a name with '/' or '.'/'..',
+    # or (client operations) gives a message id with a '.' / '..' segment — never for the empty id
     if "@" not in reason:
         return None
     try:
@@ -124,6 +144,9 @@ def match_known(case_line, reason):
         return None
     for i, n in _names(case_line):
         if i == idx and _is_slash(n):
+            return "K-C14-client-slash"
+    for i, ident in _client_ids(case_line):
+        if i == idx and _is_dotseg(ident):
             return "K-C14-client-slash"
     return None
 
